@@ -357,6 +357,81 @@ func TestVerif_C05Node(t *testing.T) {
 	rep := verifkit.NewReport("C05")
 	defer rep.Write()
 	runDoubleSpend(t, "C05", rep, verifkit.N(2500, 80000))
+	c05Known(rep, verifkit.N(400, 20000))
+}
+
+// c05Known: the conflict reaches a transaction the node already has a stored state for - it was
+// confirmed in a block that has been orphaned since - and the
+// transaction is announced again after its double spend has been seen.  "In either order, whatever
+// ...": both are seen unconfirmed, so each relevant one is reported unsafe and never safe afterwards.
+func c05Known(rep *verifkit.Report, n int) {
+	for ci := 0; ci < n; ci++ {
+		if !verifkit.Mine(ci) {
+			continue
+		}
+		ci := ci
+		verifkit.RunCase(rep, ci, func() {
+			r := verifkit.Rand("C05/known", ci)
+			w, err := newTxWorld(r, verifkit.NewStore(false), 4, 1)
+			if err != nil {
+				rep.Inconc(ci, err.Error())
+				return
+			}
+			op := w.uni.Order[0]
+			extra := w.uni.Order[1]
+			x := w.makeTx([]string{"out-push", "in-push"}[r.Intn(2)], []wire.OutPoint{op})
+			yIns := []wire.OutPoint{op}
+			if r.Intn(2) == 0 {
+				yIns = append(yIns, extra)
+			}
+			y := w.makeTx([]string{"out-push", "none"}[r.Intn(2)], yIns)
+			// (a third way, a clean restart - the mempool is empty afterwards and the old
+			// transaction is only noticed when it is announced again - is outside this
+			// property's quantifier and is not judged: see DESIGN §8)
+			how := []string{"orphaned", "orphaned-unseen"}[r.Intn(2)]
+			switch how {
+			case "orphaned":
+				w.arrive(x, c03Sources[r.Intn(4)], true)
+				w.mine([]*txInfo{x}, r.Intn(2) == 0)
+				w.reorg(1, nil, r.Intn(2) == 0)
+			case "orphaned-unseen":
+				w.mine([]*txInfo{x}, r.Intn(2) == 0) // first seen in the block
+				w.reorg(1, nil, r.Intn(2) == 0)
+			case "restart":
+				w.arrive(x, c03Sources[r.Intn(4)], true)
+				if err := w.restart(); err != nil {
+					rep.Inconc(ci, err.Error())
+					return
+				}
+			}
+			mark := len(w.e.log.snapshot())
+			w.arrive(y, c03Sources[r.Intn(4)], true)
+			w.arrive(x, c03Sources[r.Intn(4)], true)
+			w.checkerStep()
+			// judge x (relevant): after the mark an unsafe report, and no safe one at any time later
+			sawUnsafe, safeAfter := false, false
+			for _, ev := range w.e.log.snapshot()[mark:] {
+				if ev.Handler != 0 || ev.TxID != x.id || (ev.Kind != "tx" && ev.Kind != "update") {
+					continue
+				}
+				if ev.State.UnSafe {
+					sawUnsafe = true
+				}
+				if ev.State.Safe && ev.State.MerkleProof == nil {
+					safeAfter = true
+				}
+			}
+			inPool := w.e.node.memPool.TransactionExists(&x.id) && w.e.node.memPool.TransactionExists(&y.id)
+			if inPool && !sawUnsafe {
+				rep.Finding(ci, "C05/known-tx/conflict-not-flagged/"+how, fmt.Sprintf("%s (stored state from before: %s) was announced again after its double spend %s had been seen; both are unconfirmed, but %s was not reported unsafe", x.name, how, y.name, x.name), w.witness())
+			}
+			if inPool && safeAfter {
+				rep.Finding(ci, "C05/known-tx/safe-despite-conflict/"+how, fmt.Sprintf("%s reported safe while its double spend %s is known", x.name, y.name), w.witness())
+			}
+			rep.Event("known_tx_conflicts_judged:"+how, 1)
+			rep.Case("known/"+how+fmt.Sprint(len(yIns)), inPool)
+		})
+	}
 }
 
 func TestVerif_C06(t *testing.T) {
